@@ -72,6 +72,8 @@ def cmd_run(ids, all_checks):
         wt = scratch(sid)
         try:
             a = sh("cd %s && git apply %s" % (wt, os.path.join(dst, "patch.diff")))
+            if a.returncode:   # the repaired tree moved on since the change was written: retry with less context
+                a = sh("cd %s && git apply -C1 --recount %s" % (wt, os.path.join(dst, "patch.diff")))
             if a.returncode:
                 print(sid, "patch no longer applies"); continue
             props = ["C%02d" % i for i in range(1, 21)] if all_checks else [meta["property"]]
